@@ -605,6 +605,7 @@ func (p *ProjectRunner) ShutDownProject() error {
 	for _, proc := range shutdownOrder {
 		proc.prepareForShutDown()
 	}
+	verifTraceRunner(p, "ShutdownPrepared")
 
 	p.shutDownAndWait(shutdownOrder)
 	verifTraceRunner(p, "ShutdownReturn")
